@@ -262,6 +262,8 @@ PROPS["C06"] = {
         {"name": "workloads-race", "pkg": "./c06", "race": True, "run": "^TestWorkloads$", "rapid": T(150, 1500), "shards": T(4, 16)},
         {"name": "samplers", "pkg": "./c06", "run": "^TestSamplersConcurrent$", "rapid": T(200, 3000), "shards": T(1, 4)},
         {"name": "samplers-race", "pkg": "./c06", "race": True, "run": "^TestSamplersConcurrent$", "rapid": T(100, 1500), "shards": T(1, 4)},
+        {"name": "stack", "pkg": "./c06", "run": "^TestStackMarshalerConcurrent$", "rapid": T(150, 3000), "shards": T(1, 4)},
+        {"name": "stack-race", "pkg": "./c06", "race": True, "run": "^TestStackMarshalerConcurrent$", "rapid": T(60, 1000), "shards": T(1, 4)},
     ],
     "assumptions": ["event content is deterministic (fixed clock, no caller); settings are the defaults",
                     "real goroutines: only interleavings the Go scheduler produces are seen; yields, sleeps and a gate inside the writer widen the windows; the race detector (race job) reports unsynchronised access without needing the bad interleaving",
@@ -363,6 +365,8 @@ def _addcbor(pid, names, rapid_div=3):
 
 _addcbor("C03", ["rapid", "trees"])
 _addcbor("C05", ["trees", "concurrent-trees"])
+_addcbor("C04", ["grid", "random", "inert", "inert-all"], rapid_div=4)
 _addcbor("C13", ["logger"])
 _addcbor("C15", ["rapid", "concurrent"])
 _addcbor("C19", ["product", "sequences"])
+_addcbor("C18", ["isolation", "isolation-race"])
